@@ -72,6 +72,9 @@ C04_ObsWhole == (J /\ IsObs) => /\ T.reg = "ok" /\ T.cancel \in {"ok", "err"} /\
                                                                /\ ONote(k).pieces[1][4] \in 1..T.nver
                                 /\ \A k \in 2..Len(T.notes) : ONote(k).seq > ONote(k - 1).seq
 C04_ObsNoLeftovers == (J /\ IsObs /\ T.cancel = "ok") => (T.rcvSrvX = 0 /\ T.sndSrvX = 0 /\ T.rcvCliX = 0 /\ T.sndCliX = 0 /\ T.obsCliX = 0)
+\* ... and a completed block-wise notification leaves nothing behind at once, not only after the transfer timeout (the GET under
+\* the private token with which the client fetched the rest, its reassembly entry): state is bounded by live work, not by history
+C04_ObsCompletedLeavesNothing == (J /\ IsObs /\ T.reg = "ok") => (T.rcvCliNow = 0 /\ T.sndCliNow = 0 /\ T.rcvSrvNow = 0)
 \* conformance only: after a plan that ends with a notification the observer has the current representation
 K04_ObsCurrent == (J /\ IsObs /\ T.plan[Len(T.plan)] \in {"notify", "notify2", "sendchange"}) => T.lastSeen = T.nver
 
